@@ -196,11 +196,13 @@ func ModeFromStat(m uint32) fs.FileMode {
 	return mode
 }
 
-func (f *fileStat) Name() string       { return f.st.Name }
-func (f *fileStat) Size() int64        { return f.st.Size }
-func (f *fileStat) Mode() fs.FileMode  { return ModeFromStat(f.st.Mode) }
-func (f *fileStat) ModTime() time.Time { return time.Time{} }
-func (f *fileStat) IsDir() bool        { return f.Mode().IsDir() }
+func (f *fileStat) Name() string      { return f.st.Name }
+func (f *fileStat) Size() int64       { return f.st.Size }
+func (f *fileStat) Mode() fs.FileMode { return ModeFromStat(f.st.Mode) }
+func (f *fileStat) ModTime() time.Time {
+	return time.Date(2026, 1, 1, 0, 0, 0, 0, time.UTC).Add(time.Duration(f.st.Mtime) * time.Millisecond)
+}
+func (f *fileStat) IsDir() bool { return f.Mode().IsDir() }
 func (f *fileStat) Sys() any {
 	return &syscall.Stat_t{Ino: f.st.Ino, Mode: f.st.Mode, Nlink: uint64(f.st.Nlink), Uid: f.st.UID, Gid: f.st.GID, Rdev: f.st.Rdev, Size: f.st.Size}
 }
